@@ -82,6 +82,18 @@ pub trait SimData: GD + HasHost + Clone {
     fn retain_and_optimize(&mut self) -> bool {
         true
     }
+    /// Basic only: the concrete object, for the few operations outside the GarnishData trait
+    fn as_any_mut(&mut self) -> Option<&mut dyn std::any::Any> {
+        None
+    }
+    /// Basic only: allocated sizes of [instruction, jump, symbol, expression-symbol, data, custom] blocks
+    fn allocated_sizes(&self) -> Option<[usize; 6]> {
+        None
+    }
+    /// Basic only: expression-symbol table and custom block against the model
+    fn check_basic_tables(&self, _exprsyms: &std::collections::BTreeMap<u64, usize>, _custom: usize) -> Option<(String, String)> {
+        None
+    }
 }
 
 impl HasHost for SimpleW {
@@ -229,5 +241,41 @@ impl SimData for BasicW {
     fn retain_and_optimize(&mut self) -> bool {
         self.retain_all_current_data();
         matches!(crate::world::guarded(|| self.optimize(&[])), Ok(Ok(_)))
+    }
+
+    fn as_any_mut(&mut self) -> Option<&mut dyn std::any::Any> {
+        Some(self)
+    }
+
+    fn allocated_sizes(&self) -> Option<[usize; 6]> {
+        Some([
+            self.allocated_instruction_size(),
+            self.allocated_jump_table_size(),
+            self.allocated_symbol_table_size(),
+            self.allocated_expression_symbol_block_size(),
+            self.allocated_data_size(),
+            self.allocated_custom_data_size(),
+        ])
+    }
+
+    fn check_basic_tables(&self, exprsyms: &std::collections::BTreeMap<u64, usize>, custom: usize) -> Option<(String, String)> {
+        for (sym, v) in exprsyms {
+            let got = self.get_symbol_expression(*sym).ok().flatten();
+            if got != Some(*v) {
+                return Some(("C15.table.expression-symbol".into(), format!("symbol {} reads {:?} expected {}", sym, got, v)));
+            }
+        }
+        if self.custom_data_size() != custom {
+            return Some(("C15.table.custom-len".into(), format!("store {} model {}", self.custom_data_size(), custom)));
+        }
+        for i in 0..custom {
+            if self.get_from_custom_data_block(i) != Some(()) {
+                return Some(("C15.table.custom".into(), format!("index {} unreadable", i)));
+            }
+        }
+        if self.get_from_custom_data_block(custom).is_some() {
+            return Some(("C15.table.custom-past-end".into(), format!("index {} exists", custom)));
+        }
+        None
     }
 }
